@@ -74,11 +74,17 @@ def wholeValue? (f : Dec2Bin.Fmt) (mag : Nat) : Option Nat :=
   if 0 ≤ mq.2 then some (mq.1 * 2 ^ mq.2.toNat)
   else if mq.1 % 2 ^ (-mq.2).toNat = 0 then some (mq.1 / 2 ^ (-mq.2).toNat) else none
 
+/-- the bytes of `.0` -/
+def dotZero : Bytes := [46, 48]
+
+/-- the bytes of `1.#INF` -/
+def infHlsl : Bytes := [49, 46, 35, 73, 78, 70]
+
 /-- the name of `+∞`: `write_infinity_*` -/
 def infText (k : Kind) (msl : Bool) : Except String Bytes :=
   if msl then
     if k = .f64 then .error "panic: invalid msl" else .ok (str "INFINITY")
-  else .ok (str "1.#INF" ++ k.suffix)
+  else .ok (infHlsl ++ k.suffix)
 
 /-- `format_literal` on a float literal: `bits` is the stored bit pattern (sign included), `disp` Rust's `Display`
 of the stored value -/
@@ -92,15 +98,15 @@ def fmtFloat (k : Kind) (msl : Bool) (bits : Nat) (disp : Bytes) : Except String
     | .ok t => .ok (if neg then 45 :: t else t)
     | .error e => .error e
   else if k = .f32 ∧ msl = true ∧ neg = false ∧ mag = f.infBits - 1 then .ok (str "FLT_MAX")
-  else if mag = 0 ∧ neg = true then .ok (str "-0.0" ++ k.suffix)
+  else if mag = 0 ∧ neg = true then .ok (45 :: 48 :: dotZero ++ k.suffix)
   else
     match wholeValue? f mag with
     | some n =>
       if n ≤ 2 ^ 63 then
         -- `*v as i64` saturates: `2^63` prints as `i64::MAX`
         let shown := if neg then n else Nat.min n (2 ^ 63 - 1)
-        .ok ((if neg then [45] else []) ++ decText shown ++ str ".0" ++ k.suffix)
-      else .ok (disp ++ str ".0" ++ k.suffix)
+        .ok ((if neg then [45] else []) ++ decText shown ++ dotZero ++ k.suffix)
+      else .ok (disp ++ dotZero ++ k.suffix)
     | none => .ok (disp ++ k.suffix)
 
 /-- `format_literal` on an integer literal: `bits` is the 64-bit payload (two's complement for `IntSigned64`) -/
